@@ -96,6 +96,10 @@ pub struct VolSpec {
     /// formatted identically whatever it says
     #[serde(default)]
     pub ext_flags: u16,
+    /// the partition-table entry states fewer blocks than the boot sector (a rounded or rewritten table); the
+    /// geometry is the boot sector's
+    #[serde(default)]
+    pub mbr_short: bool,
     pub tree: TreeSpec,
 }
 
@@ -165,6 +169,7 @@ impl VolSpec {
             fsinfo: FsInfoKind::Correct,
             label: false,
             ext_flags: 0,
+            mbr_short: false,
             tree: TreeSpec { seed: 1, dirs: 0, files: 0, depth: 0, max_clusters: 1, lfn: false, deleted: false, vol_label: false, fragment: false, free: None, free_high: false, free_last: false, bad: 0, high_nibble: false, latin1: false, big_dirs: false, full_dirs: None, dir_attrs: false, alloc_top: false, ea_handles: false, eoc_variants: false, overalloc: false, label_twin: false },
         }
     }
@@ -952,7 +957,8 @@ pub fn build_device(d: &DevSpec) -> (Image, Vec<VolOut>) {
         mbr[o + 4] = v.ptype;
         mbr[o + 5..o + 8].copy_from_slice(&[0xFE, 0xFF, 0xFF]);
         mbr[o + 8..o + 12].copy_from_slice(&v.lba.to_le_bytes());
-        mbr[o + 12..o + 16].copy_from_slice(&v.total_blocks().to_le_bytes());
+        let stated = if v.mbr_short { (v.total_blocks() / 3).max(1) } else { v.total_blocks() };
+        mbr[o + 12..o + 16].copy_from_slice(&stated.to_le_bytes());
     }
     if let Some(s) = d.foreign_slot {
         if !d.vols.iter().any(|v| v.slot == s) {
@@ -1110,6 +1116,7 @@ pub fn gen_volspec(rng: &mut Rng, bias: Bias, lba: u32, slot: u8) -> VolSpec {
         fsinfo,
         label: rng.chance(1, 2),
         ext_flags: if fat32 && rng.chance(1, 6) { *rng.pick(&[0x0080u16, 0x0081, 0x0001, 0x000F]) } else { 0 },
+        mbr_short: rng.chance(1, 8),
         tree: TreeSpec {
             seed: rng.next_u64(),
             dirs: rng.range(0, 6) as u8,
